@@ -27,7 +27,8 @@ RULE = ("random multifurcating trees (3..14 tips, 20 in thorough; rooted/unroote
         "text, the twin's index state (per branch bitset bits, tip counts, hash code; per tip its id) is re-read after the edit and must "
         "be unchanged and be the index of the twin's own tree (SameBipartition against an independently built and indexed tree); subtree at every node index (inner nodes and tips) x edit; "
         "merge of two rooted trees on disjoint tips, plus unrooted / overlapping / no-index pairs (refusals); graft of a second "
-        "tree (rooted or not) on every tip, plus absent tip / no index / overlapping names; insert identical tips: groups with "
+        "tree (rooted or not) on every tip, grafts that re-use the name of the replaced tip (legal) or of another tip of the reference "
+        "(correspondence only), plus absent tip / no index / overlapping names; insert identical tips: groups with "
         "one existing member and 1..3 new names on tip branches of length zero / positive / absent, chained groups (a group anchored "
         "on a tip added by an earlier group of the same call, depth 2..3), plus groups with none or two "
         "existing members, empty groups, repeated new names, names inserted by an earlier group, no index; remove single nodes: "
@@ -204,6 +205,18 @@ def gen(rng, tier):
         for tip in pick:
             add({"op": Sym("graft"), "tree": T(t), "graft": T(gr), "tip": tip, "idx": True}, op="graft", kind="ok",
                 graft_rooted=len(gr["slots"]) == 2)
+        # the grafted tree legally re-uses the name of the tip it replaces (still in the reference's index at that time)
+        for tip in rng.sample(tips, min(2, len(tips))):
+            gr3 = _copy.deepcopy(gr)
+            rng.choice([x for x in preorder(gr3) if not kids(x)])["name"] = tip
+            add({"op": Sym("graft"), "tree": T(t), "graft": T(gr3), "tip": tip, "idx": True}, op="graft", kind="reuse-replaced-name",
+                graft_rooted=len(gr3["slots"]) == 2)
+        if len(tips) >= 2 and rng.random() < 0.5:
+            # ... or the name of ANOTHER tip of the reference: outside the property's quantifier, judged by correspondence
+            tip, other = rng.sample(tips, 2)
+            gr4 = _copy.deepcopy(gr)
+            rng.choice([x for x in preorder(gr4) if not kids(x)])["name"] = other
+            add({"op": Sym("graft"), "tree": T(t), "graft": T(gr4), "tip": tip, "idx": True}, op="graft", kind="reuse-other-name")
         r = rng.random()
         if r < 0.2:
             add({"op": Sym("graft"), "tree": T(t), "graft": T(gr), "tip": "nope", "idx": True}, op="graft", kind="absent")
